@@ -56,6 +56,15 @@ SHAPES = {
     "never-compared-helper-call": ["s = snapshot(make())"],
     "never-compared-defaultdict": ["from collections import defaultdict", "s = snapshot(defaultdict(list))"],
     "never-compared-defaultdict-filled": ["from collections import defaultdict", "s = snapshot(defaultdict(list, {'a': [1]}))"],
+    # classes defined inside the test function (their __qualname__ holds "<locals>")
+    "local-class-hasrepr-create": ["class User:", "    def __repr__(self):", "        return '<User 1>'", "    def __eq__(self, o):", "        return isinstance(o, User) or NotImplemented", "assert User() == snapshot()"],
+    "local-class-hasrepr-update": ["from inline_snapshot import HasRepr", "class User:", "    def __repr__(self):", "        return '<User 1>'", "    def __eq__(self, o):", "        return isinstance(o, User) or NotImplemented",
+                                   "assert [User(), 1] == snapshot([HasRepr(User, '<User 1>'), 2])"],
+    "local-enum-create": ["import enum", "class Col(enum.Enum):", "    RED = 1", "assert [Col.RED] == snapshot()", "assert Col.RED in snapshot([])"],
+    "local-flag-fix": ["import enum", "class Perm2(enum.Flag):", "    R = 1", "    W = 2", "assert (Perm2.R | Perm2.W) == snapshot(0)", "assert Perm2(0) == snapshot()"],
+    "local-dataclass-create": ["from dataclasses import dataclass", "@dataclass", "class Pt:", "    x: int", "    y: int = 0", "assert Pt(1, 2) == snapshot()", "assert {'k': Pt(1)} == snapshot({'k': Pt(x=2)})"],
+    "local-type-create": ["class K:", "    pass", "assert K == snapshot()", "assert [K, int] == snapshot([int])"],
+    "local-namedtuple-fix": ["from collections import namedtuple", "NT2 = namedtuple('NT2', 'a b')", "assert NT2(1, 2) == snapshot(NT2(a=1, b=3))"],
     # one textual call inside a finally block, reached through both of its bytecode copies (normal exit and exception)
     "finally-both-paths-fix": ["def site(fail):", "    try:", "        if fail:", "            raise ValueError('x')", "    finally:", "        _ok = 5 == snapshot(4)",
                                "site(False)", "try:", "    site(True)", "except ValueError:", "    pass"],
